@@ -183,11 +183,26 @@ pub struct FileChunk<'a> {
     pub path: &'a Path,
     pub pos: FilePos,
     pub len: FileLen,
+    /// The length of the whole file as it was when the file was scanned, if the chunk
+    /// is meant to be read from a file that has not changed since then
+    pub file_len: Option<FileLen>,
 }
 
 impl FileChunk<'_> {
     pub fn new(path: &Path, pos: FilePos, len: FileLen) -> FileChunk<'_> {
-        FileChunk { path, pos, len }
+        FileChunk {
+            path,
+            pos,
+            len,
+            file_len: None,
+        }
+    }
+
+    /// Sets the length the file is expected to have.
+    /// Reading the chunk from a file of a different length is an error.
+    pub fn of_file_len(mut self, file_len: FileLen) -> Self {
+        self.file_len = Some(file_len);
+        self
     }
 }
 
